@@ -343,6 +343,14 @@ fn run_single_program(
                 unsafe {
                     let pid = libc::getpid();
                     libc::setpgid(0, pid);
+                    // the child gives the terminal to its own group as well
+                    // (the parent does the same after the fork): whichever
+                    // runs first does it, so a foreground job never reads
+                    // the terminal before it owns it (it would be stopped
+                    // by SIGTTIN).
+                    if sh.has_terminal && options.isatty && !cl.background {
+                        shell::give_terminal_to(pid);
+                    }
                 }
             } else {
                 unsafe {
